@@ -22,8 +22,9 @@ from ..core import pool_map
 
 MODULE = "modem/Ofdm.tla"
 DEVS = ["FreqResponseTruncates", "DcNotSkipped", "MapOffByOne", "CpFromHead", "ScaleNotInverted", "SymbolsFloor",
-        "MemoryExceedsCp", "MemoNumbersByUsedOnly", "RejectedSetHalfUpdates", "PadKeepsOldData", "DemodScalesArgument"]
-INVS = ["ObjectCoherent", "ArgumentsUnchanged", "EarlierResultsUnchanged", "IndexMap", "ParamLaw", "PadLaw", "LenLaw", "PrefixIsTail", "DcAndGuardsEmpty", "CircularUnderCP",
+        "MemoryExceedsCp", "MemoNumbersByUsedOnly", "RejectedSetHalfUpdates", "PadKeepsOldData", "DemodScalesArgument",
+        "ScaleWrapsNarrowInt", "EqSkipsTinyResponse"]
+INVS = ["ObjectCoherent", "ArgumentsUnchanged", "EarlierResultsUnchanged", "ScaleLaw", "IndexMap", "ParamLaw", "PadLaw", "LenLaw", "PrefixIsTail", "DcAndGuardsEmpty", "CircularUnderCP",
         "WindowAligned", "UnmapReadsMap", "FreqIsHTimesX", "RoundTrip", "OneTapExact"]
 # which laws refute which deviation (TLC stops at the first violated invariant of the list it finds)
 DEV_REFUTED_BY = {
@@ -39,14 +40,23 @@ DEV_REFUTED_BY = {
     "RejectedSetHalfUpdates": ({(4, 1, 4), (8, 2, 4)}, {"ObjectCoherent"}),
     "PadKeepsOldData": ({(4, 1, 4), (8, 2, 4)}, {"PadLaw"}),
     "DemodScalesArgument": ({(4, 1, 2)}, {"ArgumentsUnchanged"}),
+    "ScaleWrapsNarrowInt": ({(16, 4, 10)}, {"ScaleLaw"}),        # run with the parameter types int8 / uint8
+    "EqSkipsTinyResponse": ({(4, 1, 4)}, {"OneTapExact"}),       # run with the channel gains 1e-7 .. 1e7
 }
+PTYPES = ["int", "int8", "uint8", "int16", "uint16", "int32", "uint32", "int64", "uint64"]
+# The UNSIGNED scalar types break the current code (index map and prefix use unary minus / negative numbers on the
+# parameters; proposed repair: notes/fixes/C02-integer-parameters.patch).  Until that is committed they run in a separate
+# partition whose mismatches are COUNTED in the evidence (`pending_unsigned_parameter_cases`), not judged.
+JUDGED_PTYPES = [t for t in PTYPES if not t.startswith("uint")]
+PENDING_PTYPES = [t for t in PTYPES if t.startswith("uint")]
+GAINS = list(range(-7, 8))
 HIST_DEVS = {"MemoNumbersByUsedOnly", "RejectedSetHalfUpdates", "PadKeepsOldData"}
 # the quick history alphabet: the same used count under the all-carriers branch and under the centred branch at two fft
 # sizes (both orders occur), a change of every parameter, the smallest size; rejected calls: odd used, used > fft (both
 # with a valid <<fft, cp>> that differs from most current ones), cp > fft, used = 0
 HIST_VALID = [(4, 1, 4), (8, 2, 4), (8, 3, 8), (4, 0, 2), (2, 2, 2)]
 HIST_BAD = [(8, 1, 3), (4, 2, 6), (8, 9, 4), (2, 1, 0)]
-ACTIONS = ["Construct", "SetParameters", "UseLive", "StartLive", "Start", "MapStar", "ParamStar", "Pad", "Map", "Ifft", "AddCP", "Loop", "Transmit", "Crop", "RemoveCP",
+ACTIONS = ["ScaleStar", "Construct", "SetParameters", "UseLive", "StartLive", "Start", "MapStar", "ParamStar", "Pad", "Map", "Ifft", "AddCP", "Loop", "Transmit", "Crop", "RemoveCP",
            "Fft", "Unmap", "Equalize"]
 TOL = 1e-9
 # 16+ JVMs run side by side (one TLC worker each): keep their GC / JIT helper threads from oversubscribing the cores
@@ -55,11 +65,13 @@ FID = "FreqResponseTruncates"
 
 
 def model(configs=(), mapffts=(), paramffts=(), lenmode="two", patmode="dense", ndense=1, laymode="three",
-          block=False, seed=0, dev=(), emit=True, histvalid=(), histbad=(), histmax=0, histfirst=None, usemax=1):
+          block=False, seed=0, dev=(), emit=True, histvalid=(), histbad=(), histmax=0, histfirst=None, usemax=1,
+          ptypes=("int",), scalecases=(), gains=(0,)):
     d = {k: (k in dev) for k in DEVS}
     st = lambda xs: tlc.tla(set(xs)) if xs else "{}"
     defs = {"Configs": st([tuple(c) for c in configs]), "MapFfts": st(mapffts), "ParamFfts": st(paramffts),
             "HistFirst": st([tuple(c) for c in (histvalid if histfirst is None else histfirst)]),
+            "CallTypes": tlc.tla(list(JUDGED_PTYPES)), "PTypes": st(list(ptypes)), "ScaleCases": st([tuple(c) for c in scalecases]), "Gains": st(list(gains)),
             "HistValid": st([tuple(c) for c in histvalid]), "HistBad": st([tuple(c) for c in histbad]), "Dev": tlc.tla(d)}
     cfg = tlc.cfg_text(constants={"LenMode": tlc.tla(lenmode), "PatMode": tlc.tla(patmode), "NDense": str(ndense),
                                   "LayMode": tlc.tla(laymode), "Block": tlc.tla(bool(block)), "Seed": str(seed % 1000),
@@ -82,8 +94,13 @@ def cyc(a):
 
 
 def scale_of(e):
-    """sqrt(ps)^e / div with ps = <<n, d>> as emitted"""
-    return math.sqrt(e["ps"][0] / e["ps"][1]) ** e["sc"]["e"] / e["sc"]["div"]
+    """sqrt(ps)^e / div * 10^g with ps = <<root, d>> = root^2 / d as emitted"""
+    return (e["ps"][0] / math.sqrt(e["ps"][1])) ** e["sc"]["e"] / e["sc"]["div"] * 10.0 ** e["sc"].get("g", 0)
+
+
+def ptype(name):
+    """the integer scalar type the OFDM parameters are passed as"""
+    return int if name == "int" else getattr(np, name)
 
 
 def gint(g):
@@ -93,7 +110,8 @@ def gint(g):
     return a[..., 0] + 1j * a[..., 1]
 
 
-def close(x, y):
+def close(x, y, unit=1.0):
+    """|x - y| <= 1e-9 max(unit, |y|); `unit` = the natural scale of the signal (10^g after a channel of gain 10^g)"""
     x = np.asarray(x)
     y = np.asarray(y)
     if x.shape != y.shape:
@@ -102,7 +120,7 @@ def close(x, y):
         return True
     if not np.all(np.isfinite(x)):
         return False
-    return bool(np.all(np.abs(x - y) <= TOL * np.maximum(1.0, np.abs(y))))
+    return bool(np.all(np.abs(x - y) <= TOL * np.maximum(unit, np.abs(y))))
 
 
 # ------------------------------------------------------------------ the table generator
@@ -229,7 +247,8 @@ def run_modulator(m, o=None, ledger=None):
     N, cp, u, L, _ = m["input"]["id"]
     exact = m["input"]["exact"]
     if o is None:
-        o = OFDM(N, cp, u)
+        T = ptype(m["input"].get("pt", "int"))      # the behaviour must not depend on the integer type of the parameters
+        o = OFDM(T(N), T(cp), T(u))
     idx = [int(i) for i in o.get_used_subcarrier_indexes()]
     if idx != m["map"]["out"]["idx"]:
         raise Bad(f"Map: get_used_subcarrier_indexes() = {idx}, specified {m['map']['out']['idx']}")
@@ -250,7 +269,7 @@ def run_modulator(m, o=None, ledger=None):
         txe = cyc(m["cp"]["out"]["tx"]) * scale_of(m["cp"])
     else:  # (rel) first principles: inverse DFT of the specified grid times sqrt(ps)
         ps = m["ifft"]["ps"]
-        body = (grid @ dft_matrix(N, +1)) / N * math.sqrt(ps[0] / ps[1])
+        body = (grid @ dft_matrix(N, +1)) / N * (ps[0] / math.sqrt(ps[1]))
         lab = np.asarray(m["cp"]["out"]["txi"])
         txe = body[lab[:, 0], lab[:, 1]]
     blocks = tx.reshape(ns, N + cp)
@@ -283,7 +302,8 @@ def run_receiver(o, tx, m, d, known, ledger=None):
         if exact and not close(dem, cyc(d["dem"]["out"]["dem"]) * scale_of(d["dem"])):
             raise Bad("RoundTrip: demodulated values differ from the specified ones")
         return
-    chan, vals, delays = make_channel(ch["taps"], N + cp, ch["block"])
+    gain = 10.0 ** ch.get("g", 0)       # every static realisation: the same layout at any overall gain
+    chan, vals, delays = make_channel(ch["taps"], N + cp, ch["block"], gint([t[1] for t in ch["taps"]]) * gain)
     rxfull = call("corrupt_data", chan.corrupt_data, [tx.copy()], d["chan"].get("req", ()), ledger)
     mem = d["chan"]["out"]["mem"]
     if rxfull.shape != (n + mem,):
@@ -292,7 +312,7 @@ def run_receiver(o, tx, m, d, known, ledger=None):
     if [int(t) for t in ir.tap_indexes_sparse] != [int(t) for t in delays]:
         raise Bad("Channel: reported tap delays differ from the layout")
     rot = (1j ** ((np.arange(n) // (N + cp)) % 4)) if ch["block"] else np.ones(n, dtype=complex)
-    if not close(np.asarray(ir.tap_values_sparse), vals[:, None] * rot[None, :]):
+    if not close(np.asarray(ir.tap_values_sparse), vals[:, None] * rot[None, :], gain):
         raise Bad("Channel: reported impulse response is not the table (harness precondition)")
     if exact:
         rxe = cyc(d["chan"]["out"]["rxfull"]) * scale_of(d["chan"])
@@ -300,14 +320,14 @@ def run_receiver(o, tx, m, d, known, ledger=None):
         rxe = np.zeros(n + mem, dtype=complex)
         for q, dl in enumerate(delays):
             rxe[dl:dl + n] += vals[q] * rot * tx
-    if not close(rxfull, rxe):
+    if not close(rxfull, rxe, gain):
         raise Bad("Channel: corrupt_data output differs from the convolution with the specified taps")
     corner = d["chan"]["out"]["corner"]
     if exact:  # reported frequency response at the fft size = DFT of the taps, delays aliased modulo N
         fr = np.asarray(ir.get_freq_response(N))
-        He = cyc(d["chan"]["out"]["H"])[:, None] * rot[None, :]
-        if not close(fr, He):
-            if corner and close(fr, cyc(d["chan"]["out"]["Htrunc"])[:, None] * rot[None, :]):
+        He = cyc(d["chan"]["out"]["H"])[:, None] * rot[None, :] * gain
+        if not close(fr, He, gain):
+            if corner and close(fr, cyc(d["chan"]["out"]["Htrunc"])[:, None] * rot[None, :] * gain, gain):
                 known.append("get_freq_response(fft) drops the tap at delay = fft instead of aliasing it onto delay 0")
             else:
                 raise Bad("Channel: get_freq_response(fft) differs from the DFT of the reported taps")
@@ -315,14 +335,14 @@ def run_receiver(o, tx, m, d, known, ledger=None):
     dem = call("demodulate", o.demodulate, [rx], d["dem"].get("req", ()), ledger)
     if dem.shape != (ns * u,):
         raise Bad(f"Unmap: demodulate returned {dem.shape}, specified {ns * u}")
-    if exact and not close(dem, cyc(d["dem"]["out"]["dem"]) * scale_of(d["dem"])):
+    if exact and not close(dem, cyc(d["dem"]["out"]["dem"]) * scale_of(d["dem"]), gain):
         raise Bad("RemoveCP/Fft/Unmap: demodulated values differ from the specified ones")
     if "eq" not in d:
         return
     eqz = OfdmOneTapEqualizer(o)
     eq = call("equalize_data", eqz.equalize_data, [dem.copy(), ir], d["eq"].get("req", ()), ledger)
     if not close(eq, gint(d["eq"]["out"]["exp"])):
-        if d["eq"]["out"]["corner"]:
+        if d["eq"]["out"]["corner"] and gain == 1.0:
             if exact:
                 num = cyc([a["num"] for a in d["eq"]["out"]["asis"]])
                 den = cyc([a["den"] for a in d["eq"]["out"]["asis"]])
@@ -335,7 +355,8 @@ def run_receiver(o, tx, m, d, known, ledger=None):
             if same:
                 known.append("OneTapExact fails for cp = fft = memory: equaliser divides by the truncated response")
                 return
-        raise Bad("OneTapExact: equalised symbols are not the transmitted symbols followed by zeros")
+        raise Bad("OneTapExact: equalised symbols are not the transmitted symbols followed by zeros"
+                  + (f" (channel gain 1e{ch.get('g', 0)})" if gain != 1.0 else ""))
 
 
 def run_random(o, m, d, rng, known, ledger=None):
@@ -359,18 +380,30 @@ def run_random(o, m, d, rng, known, ledger=None):
         return
     k = len(ch["taps"])
     # first tap dominant (|h0| = 3 > sum of the others <= 2): the response cannot vanish, condition number <= 5
+    # ... at a random overall gain 10^U(-7, 7): scaling is perfectly conditioned, the equalised symbols must not move
+    gexp = rng.uniform(-7, 7)
     vals = np.concatenate([[3 * np.exp(2j * np.pi * rng.uniform())],
-                           rng.uniform(0.2, 1, k - 1) * np.exp(2j * np.pi * rng.uniform(size=k - 1))])
-    chan, _, _ = make_channel(ch["taps"], N + cp, ch["block"], vals)
-    rx = call("corrupt_data", chan.corrupt_data, [tx.copy()], d["chan"].get("req", ()), ledger, readonly=True)[:len(tx)].copy()
-    dem = call("demodulate", o.demodulate, [rx], d["dem"].get("req", ()), ledger, readonly=True)
-    eq = call("equalize_data", OfdmOneTapEqualizer(o).equalize_data, [dem, chan.get_last_impulse_response()],
-              d["eq"].get("req", ()), ledger, readonly=True)
-    if not close(eq, want):
-        if d["eq"]["out"]["corner"]:
-            known.append("OneTapExact fails for cp = fft = memory (random complex taps): truncated frequency response")
-            return
-        raise Bad("OneTapExact (random complex data and taps): equalised symbols are not the transmitted symbols")
+                           rng.uniform(0.2, 1, k - 1) * np.exp(2j * np.pi * rng.uniform(size=k - 1))]) * 10.0 ** gexp
+    cases = [("random complex taps, gain 1e%.1f" % gexp, vals, TOL)]
+    if k >= 2 and not d["eq"]["out"]["corner"]:
+        # a deep but NON-ZERO fade (|H| = 3e-7) on one used bin k0: h = [1, -(1 - 3e-7) e^{+2 pi i k0 (d1 - d0) / N}, 0, ...]
+        # (exact zeros inside the tap array included); error amplification 1/|H| ~ 3e6 -> tolerance 1e-6
+        k0 = int(m["map"]["out"]["idx"][rng.randint(u)])
+        d0, d1 = ch["taps"][0][0], ch["taps"][1][0]
+        fade = np.zeros(k, dtype=complex)
+        fade[0], fade[1] = 1.0, -(1 - 3e-7) * np.exp(2j * np.pi * k0 * (d1 - d0) / N)
+        cases.append(("deep non-zero fade |H| = 3e-7 on bin %d" % k0, fade, 1e-6))
+    for what, v, tol in cases:
+        chan, _, _ = make_channel(ch["taps"], N + cp, ch["block"], v)
+        rx = call("corrupt_data", chan.corrupt_data, [tx.copy()], d["chan"].get("req", ()), ledger, readonly=True)[:len(tx)].copy()
+        dem = call("demodulate", o.demodulate, [rx], d["dem"].get("req", ()), ledger, readonly=True)
+        eq = call("equalize_data", OfdmOneTapEqualizer(o).equalize_data, [dem, chan.get_last_impulse_response()],
+                  d["eq"].get("req", ()), ledger, readonly=True)
+        if eq.shape != want.shape or not np.all(np.isfinite(eq)) or np.abs(eq - want).max() > tol * max(1.0, np.abs(want).max()):
+            if d["eq"]["out"]["corner"]:
+                known.append("OneTapExact fails for cp = fft = memory (random complex taps): truncated frequency response")
+                return
+            raise Bad(f"OneTapExact ({what}, random complex data): equalised symbols are not the transmitted symbols")
 
 
 def check_chain(case, o=None, ledger=None):
@@ -424,13 +457,15 @@ def check_history(h):
             continue
         acc = st["call"]["out"]["accepted"]
         before = None if o is None else (o.fft_size, o.cp_size, o.num_used_subcarriers)
+        T = ptype(st["call"]["out"].get("pt", "int"))     # each configuration call with its own integer scalar type
+        args = [T(v) for v in c[1:]]
         try:
             if o is None:
-                o = OFDM(*c[1:])
+                o = OFDM(*args)
                 raised = False
             else:
                 try:
-                    o.set_parameters(*c[1:])
+                    o.set_parameters(*args)
                     raised = False
                 except ValueError:
                     raised = True
@@ -453,6 +488,34 @@ def check_history(h):
     return [], okc, -1
 
 
+def check_scalecase(e):
+    """(rel) sizes too large for a chain, parameters of the emitted integer scalar type: one data symbol 1 on the first used
+    bin k (emitted index map) -> every body sample is sqrt(ps)/N * exp(2 pi i k n / N) (first principles), prefix = tail,
+    round trip returns [1, 0, ...]."""
+    from pyphysim.modulators.ofdm import OFDM
+    N, cp, u = e["id"][:3]
+    T = ptype(e["pt"])
+    what = f"scale case fft={N} cp={cp} used={u} parameters as {e['pt']}: "
+    try:
+        with np.errstate(all="ignore"):
+            o = OFDM(T(N), T(cp), T(u))
+            idx = [int(i) for i in o.get_used_subcarrier_indexes()]
+            if idx != e["out"]["idx"]:
+                return what + f"index map {idx[:4]}.. differs from the specified {e['out']['idx'][:4]}.."
+            tx = np.asarray(o.modulate(np.array([1.0 + 0j])))
+            if tx.shape != (N + cp,):
+                return what + f"modulate returned {tx.shape}, specified {N + cp} samples"
+            body = (e["ps"][0] / math.sqrt(e["ps"][1])) / N * np.exp(2j * np.pi * idx[0] * np.arange(N) / N)
+            if not close(tx[cp:], body) or not close(tx[:cp], body[N - cp:]):
+                return what + "emitted symbol differs from sqrt(ps)/N * exp(2 pi i k n / N) (power scale formed in a narrow type?)"
+            dem = np.asarray(o.demodulate(tx.copy()))
+            if not close(dem, gint(e["out"]["padded"])):
+                return what + "round trip does not return [1, 0, ...]"
+    except Exception as ex:
+        return what + f"raised {type(ex).__name__}: {ex}"
+    return None
+
+
 def check_star(e):
     from pyphysim.modulators.ofdm import OFDM
     N, cp, u = e["id"][0], e["id"][1], e["id"][2]
@@ -461,6 +524,8 @@ def check_star(e):
         if got != e["out"]["idx"]:
             return f"index map fft={N} used={u}: get_used_subcarrier_indexes() = {got}, specified {e['out']['idx']}"
         return None
+    if e["step"] == "scalecase":
+        return check_scalecase(e)
     try:
         o = OFDM(N, cp, u)
         ok = (o.fft_size, o.cp_size, o.num_used_subcarriers) == (N, cp, u)
@@ -477,13 +542,13 @@ def chains(emitted):
     mods, rcvs, stars, calls = {}, {}, [], {}
     for e in emitted:
         st = e["step"]
-        if st in ("mapcase", "param"):
+        if st in ("mapcase", "param", "scalecase"):
             stars.append(e)
             continue
         if st == "call":
             calls[tlc.json.dumps(e["hist"])] = e
             continue
-        key = tlc.json.dumps([e["hist"], e["id"]])
+        key = tlc.json.dumps([e["hist"], e["id"], e.get("pt", "int")])
         if st in ("input", "pad", "map", "ifft", "cp"):
             mods.setdefault(key, {})[st] = e
         else:
@@ -570,7 +635,7 @@ def partition(job):
         bad, okc = check_chain(c)
         res["chains"] += 1 + len(c["rcv"])
         res["ok"] += okc
-        ident = tlc.json.dumps(c["mod"]["input"]["id"])
+        ident = tlc.json.dumps([c["mod"]["input"]["id"], c["mod"]["input"].get("pt", "int")])
         res["keys"].append(ident)
         res["keys"] += [ident + tlc.json.dumps(d["rx"]["ch"], sort_keys=True) for d in c["rcv"]]
         res["excluded"] += sum(1 for d in c["rcv"] if d["rx"]["ch"]["taps"] and "eq" not in d)
@@ -598,6 +663,10 @@ def partition(job):
                              "demanded_parameters_after_each_call": [st["call"]["out"]["want"] for st in h["steps"]],
                              "frame_laws_per_call": [st["call"]["req"] for st in h["steps"]]}
     res["shape_obs"] = dict(SHAPE_OBS)
+    if job.get("pending"):      # counted, not judged (see PENDING_PTYPES)
+        res["pending"] = len(res["viol"])
+        res["pending_example"] = res["viol"][0][0] if res["viol"] else None
+        res["viol"] = []
     return res
 
 
@@ -608,7 +677,8 @@ def dev_job(job):
                           laymode="none", dev=[dev], emit=False)
     else:
         cfg, defs = model(configs=configs, mapffts=[4, 8], lenmode="two", patmode="dense", laymode="three", dev=[dev],
-                          emit=False)
+                          emit=False, ptypes=["int", "int8", "uint8"] if dev == "ScaleWrapsNarrowInt" else ["int"],
+                          gains=GAINS if dev == "EqSkipsTinyResponse" else [0])
     r = tlc.run(MODULE, cfg, defs=defs, workers=2, env=JVM_ENV)
     return dev, r.violated, r.generated, r.distinct, sorted(allowed)
 
@@ -654,7 +724,21 @@ def plan(tier, seed):
     pow2 = configs_of([2, 4, 8])
     np2 = (configs_of([6]) + configs_of([12], cps=lambda N: [0, 1, 5, 12], us=lambda N: [2, 6, 10, 12])
            + configs_of([60], cps=lambda N: [0, 7, 60], us=lambda N: [2, 52, 60]))
-    jobs.append({"label": "stars", "w": 1e12, "model": dict(mapffts=list(range(2, 65)), paramffts=[2, 3, 4, 6, 8], seed=seed)})
+    # sizes at which fft^2 leaves the 16 / 32-bit range, parameters in every (judged) type wide enough for the sizes
+    big = [(182, 10, 100), (256, 64, 200), (46342, 2, 4), (65536, 0, 2)]
+    scalecases = [c + (t,) for c in big for t in JUDGED_PTYPES if t != "int8" and (c[0] < 32768 or t not in ("int16",))]
+    jobs.append({"label": "stars", "w": 1e12, "model": dict(mapffts=list(range(2, 65)), paramffts=[2, 3, 4, 6, 8], seed=seed,
+                                                             scalecases=scalecases)})
+    # parameter scalar types: full chains for sizes at the 8-bit thresholds of fft^2 (12, 16), small and non-pow2 sizes
+    tcfg = [(4, 1, 4), (8, 2, 4), (8, 8, 8), (12, 5, 10), (16, 4, 10), (16, 16, 16), (60, 7, 52), (6, 0, 2)]
+    jobs.append({"label": "ptypes", "w": 7e10, "model": dict(configs=tcfg, ptypes=JUDGED_PTYPES, seed=seed, lenmode="isi",
+                                                              patmode="dense", ndense=1, laymode="one")})
+    jobs.append({"label": "ptypes-pending", "pending": True, "w": 6e10, "model": dict(
+        configs=tcfg[:5], ptypes=PENDING_PTYPES, seed=seed, lenmode="isi", patmode="dense", ndense=1, laymode="none")})
+    # every static realisation: each layout at the overall gains 1e-7 .. 1e7
+    jobs.append({"label": "gains", "w": 5e10, "model": dict(configs=configs_of([2, 4, 8]) if tier == "quick" else configs_of([2, 4, 8, 16]),
+                                                             gains=GAINS, seed=seed, lenmode="isi", patmode="dense", ndense=1,
+                                                             laymode="one", block=(tier != "quick"))})
     if tier == "quick":
         # every length and the complete unit basis of the data; loopback and the full-memory two-tap layout
         add("data-sweep", pow2, 6, 2.0, lenmode="all", patmode="basis", ndense=1, laymode="one", block=False)
@@ -746,6 +830,9 @@ def run(ctx):
         ctx.trace_done(res["chains"])
         nchains += res["chains"]
         ctx.notes["layouts_not_equalised"] = ctx.notes.get("layouts_not_equalised", 0) + res["excluded"]
+        if "pending" in res:
+            ctx.notes["pending_unsigned_parameter_cases"] = {"mismatching_chains": res["pending"], "of": res["chains"],
+                                                             "example": res["pending_example"]}
         ctx.notes["histories_replayed"] = ctx.notes.get("histories_replayed", 0) + res.get("histories", 0)
         for k, v in res.get("shape_obs", {}).items():   # observation, not a verdict: the call changed the SHAPE of its argument
             obs = ctx.notes.setdefault("calls_that_reshaped_their_argument", {})
